@@ -80,12 +80,58 @@ func c02WriteOrder(r *Run, wf *ssa.Function) {
 	mar := findCalls(wf, "invoke p9p.Codec.Marshal")
 	snd := findCalls(wf, "p9p.sendmsg")
 	fl := findCalls(wf, "(*bufio.Writer).Flush")
+	// the write step (sendmsg + Flush) may live in a helper of the channel handed the marshalled bytes
+	// (`return ch.writeframe(p)`): the call is the write step of WriteFcall, the helper's body is checked as its tail
+	var tailCall *ssa.Call
+	var tailFn *ssa.Function
+	var tailParam ssa.Value
+	if len(snd) == 0 {
+		eachInstr(wf, func(in ssa.Instruction) {
+			c, ok := in.(*ssa.Call)
+			if !ok {
+				return
+			}
+			g := staticCallee(&c.Call)
+			if g == nil || g.Blocks == nil || g.Pkg != wf.Pkg || len(findCalls(g, "p9p.sendmsg")) == 0 {
+				return
+			}
+			for i, a := range c.Call.Args {
+				for _, m := range mar {
+					if a == resultN(m, 0) && i < len(g.Params) {
+						tailCall, tailFn, tailParam = c, g, g.Params[i]
+					}
+				}
+			}
+		})
+		if tailFn != nil {
+			r.SawFn(fnName(tailFn))
+			snd = findCalls(tailFn, "p9p.sendmsg")
+			fl = findCalls(tailFn, "(*bufio.Writer).Flush")
+		}
+	}
 	r.Floor("write-order", len(mts), 1, "maybeTruncate call in WriteFcall")
 	r.Floor("write-order", len(mar), 1, "Codec.Marshal call in WriteFcall")
 	r.Floor("write-order", len(snd), 1, "sendmsg call in WriteFcall")
 	r.Floor("write-order", len(fl), 1, "Flush call in WriteFcall")
 	if len(mts) == 0 || len(mar) == 0 || len(snd) == 0 {
 		return
+	}
+	tf := wf // the function holding the write step
+	if tailFn != nil {
+		tf = tailFn
+		okT := false
+		for _, m := range mar {
+			if instrDominates(m, tailCall) && callSucceededAt(m, tailCall) {
+				okT = true
+			}
+		}
+		r.Check(okT, "write-order", "WriteFcall: "+fnName(tailFn)+" only after successful Marshal", tailCall.Pos(),
+			"bytes can reach the connection on a path where truncation/marshalling did not succeed")
+		okp := false
+		if e := errResult(tailCall); e != nil {
+			okp, _ = errPropagated(wf, e)
+		}
+		r.Check(okp, "error-propagation", "WriteFcall: error of the write step returned", tailCall.Pos(), "a failed write is reported as success")
 	}
 	// every Marshal must follow a successful maybeTruncate of the same fcall
 	for _, m := range mar {
@@ -101,7 +147,7 @@ func c02WriteOrder(r *Run, wf *ssa.Function) {
 			fmt.Sprintf("marshal arg is fcall param: %v", same))
 	}
 	// every connection write (sendmsg, any bufio.Writer method, net.Conn.Write) must follow a successful Marshal
-	eachInstr(wf, func(in ssa.Instruction) {
+	eachInstr(tf, func(in ssa.Instruction) {
 		c, ok := in.(ssa.CallInstruction)
 		if !ok {
 			return
@@ -112,9 +158,9 @@ func c02WriteOrder(r *Run, wf *ssa.Function) {
 			return
 		}
 		r.CallSites++
-		ok2 := false
+		ok2 := tailFn != nil // in the tail helper: its call site was checked above
 		for _, m := range mar {
-			if instrDominates(m, in) && callSucceededAt(m, in) {
+			if tailFn == nil && instrDominates(m, in) && callSucceededAt(m, in) {
 				ok2 = true
 			}
 		}
@@ -128,7 +174,7 @@ func c02WriteOrder(r *Run, wf *ssa.Function) {
 			call := in.(*ssa.Call)
 			// sendmsg's payload is exactly Marshal's result
 			arg := call.Call.Args[1]
-			fromMarshal := false
+			fromMarshal := tailFn != nil && arg == tailParam
 			for _, m := range mar {
 				if resultN(m, 0) == arg {
 					fromMarshal = true
@@ -140,7 +186,7 @@ func c02WriteOrder(r *Run, wf *ssa.Function) {
 			e := errResult(call)
 			okp := false
 			if e != nil {
-				okp, _ = errPropagated(wf, e)
+				okp, _ = errPropagated(tf, e)
 			}
 			r.Check(okp, "error-propagation", "WriteFcall: sendmsg error returned", in.Pos(), "sendmsg's error is dropped")
 		}
@@ -155,7 +201,7 @@ func c02WriteOrder(r *Run, wf *ssa.Function) {
 			okp := false
 			if fc, isCall := in.(*ssa.Call); isCall { // a deferred or go'ed Flush has no result anybody can look at
 				if e := errResult(fc); e != nil {
-					okp, _ = errPropagated(wf, e)
+					okp, _ = errPropagated(tf, e)
 				}
 			}
 			r.Check(okp, "error-propagation", "WriteFcall: Flush error returned", in.Pos(), "Flush's error is dropped (a write that fails while the frame leaves the buffer is reported as success)")
@@ -181,7 +227,7 @@ func c02WriteOrder(r *Run, wf *ssa.Function) {
 	// nothing stays behind in the buffered writer: once sendmsg has put the frame into the buffer, every way out of
 	// WriteFcall goes through Flush (a frame left in the buffer by a call that returned an error is emitted by the
 	// next call: "nothing emitted on error" and "exactly one frame per call" both fail)
-	for _, ret := range returnsOf(wf) {
+	for _, ret := range returnsOf(tf) {
 		for _, sd := range snd {
 			if !(instrDominates(sd, ret) && callSucceededAt(sd, ret)) {
 				continue
@@ -198,7 +244,7 @@ func c02WriteOrder(r *Run, wf *ssa.Function) {
 	}
 	// a nil return of WriteFcall requires a successful flush: every `return nil` const is dominated by Flush success,
 	// or the function returns Flush's result directly.
-	for _, ret := range returnsOf(wf) {
+	for _, ret := range returnsOf(tf) {
 		if len(ret.Results) != 1 {
 			continue
 		}
@@ -210,6 +256,14 @@ func c02WriteOrder(r *Run, wf *ssa.Function) {
 				}
 			}
 			r.Check(ok, "write-order", "WriteFcall: success return only after Flush", ret.Pos(), "WriteFcall can report success without flushing the frame")
+		}
+	}
+	if tailFn != nil {
+		for _, ret := range returnsOf(wf) {
+			if len(ret.Results) == 1 && isNilConst(ret.Results[0]) {
+				r.Check(instrDominates(tailCall, ret) && callSucceededAt(tailCall, ret), "write-order", "WriteFcall: success return only after the write step succeeded", ret.Pos(),
+					"WriteFcall can report success without having written (and flushed) the frame")
+			}
 		}
 	}
 }
@@ -738,6 +792,39 @@ func c02Sendmsg(r *Run, sm *ssa.Function) {
 	pParam := sm.Params[1]
 	hdr := findCalls(sm, "encoding/binary.Write")
 	body := findCalls(sm, "invoke io.Writer.Write")
+	// the header may be written by a helper handed the writer and the body length (`sendmsize(wr, len(p))`)
+	var hdrHelper *ssa.Call
+	hfa := fa
+	var lenParam ssa.Value
+	if len(hdr) == 0 {
+		eachInstr(sm, func(in ssa.Instruction) {
+			c, ok := in.(*ssa.Call)
+			if !ok {
+				return
+			}
+			g := staticCallee(&c.Call)
+			if g == nil || g.Blocks == nil || g.Pkg != sm.Pkg || len(findCalls(g, "encoding/binary.Write")) != 1 {
+				return
+			}
+			for i, a := range c.Call.Args {
+				if _, _, isInt := intBits(a.Type()); isInt && i < len(g.Params) && fa.Lin(a).Equal(fa.linSym(lenOf(fa.Sym(pParam)), 0)) {
+					hdrHelper, lenParam = c, g.Params[i]
+				}
+			}
+		})
+		if hdrHelper != nil {
+			g := staticCallee(&hdrHelper.Call)
+			r.SawFn(fnName(g))
+			hdr = findCalls(g, "encoding/binary.Write")
+			hfa = r.P.FA(g)
+			// the helper hands back the write's own error
+			okFwd := false
+			if e := errResult(hdr[0]); e != nil {
+				okFwd, _ = errPropagated(g, e)
+			}
+			r.Check(okFwd, "error-propagation", "sendmsg: the header helper returns the write's error", hdr[0].Pos(), "header write error dropped")
+		}
+	}
 	r.Floor("sendmsg", len(hdr), 1, "binary.Write of the size header")
 	r.Floor("sendmsg", len(body), 1, "Write of the body")
 	if len(hdr) == 0 || len(body) == 0 {
@@ -746,12 +833,17 @@ func c02Sendmsg(r *Run, sm *ssa.Function) {
 	h := hdr[0]
 	// header value ≡ len(p)+4 (mod 2^32), written little-endian as a uint32
 	val := stripConv(h.Call.Args[2])
-	lm := fa.LinMod(val, 32)
+	lm := hfa.LinMod(val, 32)
 	want := fa.linSym(lenOf(fa.Sym(pParam)), 0).Add(linConst(4))
+	if hdrHelper != nil {
+		want = hfa.Lin(lenParam).Add(linConst(4))
+		h = hdrHelper // for ordering and error propagation, the helper call is the header step of sendmsg
+	}
+	hw := hdr[0]
 	bits, signed, okT := intBits(val.Type())
 	r.Check(okT && bits == 32 && !signed, "sendmsg", "sendmsg: size header is a uint32", h.Pos(), "size header is not written as 4 unsigned bytes: "+shortType(val.Type()))
 	r.Check(lm.EqualMod(want, 32), "sendmsg", "sendmsg: header ≡ len(p)+4", h.Pos(), "size header is "+lm.String()+", expected "+want.String(), "header = "+lm.String())
-	if g, ok := h.Call.Args[1].(*ssa.MakeInterface); ok {
+	if g, ok := hw.Call.Args[1].(*ssa.MakeInterface); ok {
 		gl, isG := g.X.(*ssa.UnOp)
 		okLE := false
 		if isG {
@@ -793,6 +885,38 @@ func c02Msgmsize(r *Run, mm *ssa.Function) {
 	fa := r.P.FA(mm)
 	for _, ret := range returnsOf(mm) {
 		l := fa.Lin(ret.Results[0])
+		// the sum may be formed by a helper handed the codec and the fcall (`framesize(ch.codec, fcall)`)
+		if hc, isCall := ret.Results[0].(*ssa.Call); isCall {
+			if g := staticCallee(&hc.Call); g != nil && g.Blocks != nil && r.P.InModule(g) && len(returnsOf(g)) == 1 {
+				fi := -1
+				for i, a := range hc.Call.Args {
+					if a == ssa.Value(mm.Params[1]) {
+						fi = i
+					}
+				}
+				if fi >= 0 && fi < len(g.Params) {
+					gfa := r.P.FA(g)
+					gl := gfa.Lin(returnsOf(g)[0].Results[0])
+					okG := gl.C == 4 && len(gl.T) == 1
+					for k, c := range gl.T {
+						a := gl.Atoms[k]
+						if c != 1 || a.Op != "call" || a.Aux != "invoke p9p.Codec.Size" || len(a.Args) < 1 || a.Args[len(a.Args)-1].K != "p:"+g.Params[fi].Name() {
+							okG = false
+						}
+					}
+					// the codec handed over is the channel's own
+					okCodec := false
+					for _, a := range hc.Call.Args {
+						if isLoadOfField(a, "channel", "codec") {
+							okCodec = true
+						}
+					}
+					r.SawFn(fnName(g))
+					r.Check(okG && okCodec, "msgmsize", "msgmsize(fcall) == 4 + codec.Size(fcall)", ret.Pos(), "msgmsize returns "+fnName(g)+"(…) = "+gl.String(), "msgmsize = "+gl.String())
+					continue
+				}
+			}
+		}
 		ok := l.C == 4 && len(l.T) == 1
 		for k, c := range l.T {
 			a := l.Atoms[k]
